@@ -158,7 +158,8 @@ def check_case(case):
         if gaps[K]:
             cv.append(-1)
         # handed to the library in a caller-owned buffer that is refilled in place from case to case
-        cv = _refill(np.array(cv, dtype=int), 'cycle_vect')
+        # (a call on the buffer's previous contents comes first: two consecutive uses of one object with different contents)
+        cv = _refill.primed(np.array(cv, dtype=int), 'cycle_vect', lambda b_: cs.map_cycle_to_samples(b_, 0))
         cv0 = cv.copy()
         d += ' cycle_vect=%s' % cv.tolist()
     else:
